@@ -243,11 +243,21 @@ def _main(a, seed, t_start):
     known_hits = []
     refuted = [r for r in all_results if r['verdict'] == 'refuted']
     undecided = [r for r in all_results if r['verdict'] == 'undecided']
-    os.makedirs(os.path.join(VERIF, 'replays', prop), exist_ok=True)
+    rdir = os.path.join(VERIF, 'replays', prop)
+    os.makedirs(rdir, exist_ok=True)
+    for old_file in os.listdir(rdir):          # replay files belong to one run
+        if old_file.endswith('.json'):
+            os.remove(os.path.join(rdir, old_file))
     seen_sigs = set()
     bounded_rows = []
     bounded_done = {}
+    per_clause = {}
     for r in refuted:
+        # one replay per (unit, clause): further refuted paths of the same clause are listed in the evidence only
+        ck = (r['unit'], r['name'].rsplit('#', 1)[-1])
+        per_clause[ck] = per_clause.get(ck, 0) + 1
+        if per_clause[ck] > 2:
+            continue
         contract = None
         if r['unit_kind'] == 'contract':
             contract = reg.get(r['unit'])
